@@ -153,6 +153,28 @@ def d2(chk, prog):
     tb2.done("the default minimum antitarget size is not 2*int(avg/32)")
 
 
+def d2b(chk, prog):
+    chk.clause("D2b", "without an access table every targeted chromosome is taken from the telomere margin to its own last target's end (literal targets)")
+    fi = prog.fn("cnvlib.antitarget.guess_chromosome_regions")
+    tb = Table(chk, "antitarget-margins", "guess_chromosome_regions on literal targets (chr2 before chr10; chr1, chr9, chr10, chrX): one row per chromosome, in table order, ending at that chromosome's last target", fi.loc(), fi.qn)
+    layouts = {"chr2 before chr10": [("chr2", 100, 200), ("chr2", 800, 900), ("chr10", 10, 50), ("chr10", 300, 400)],
+               "chr1, chr9, chr10, chrX": [("chr1", 0, 70), ("chr9", 5, 1500), ("chr10", 20, 60), ("chr10", 90, 250), ("chrX", 40, 41)], "one chromosome": [("chr5", 3, 9)]}
+    for label, rows in layouts.items():
+        W.reset()
+        g = make_ga("GenomicArray", [dict(chromosome=c, start=a, end=b, gene="t") for c, a, b in rows], {}, index="range", exact=True, labels=list(range(len(rows))))
+        it = Interp(prog)
+        out = tb.guard(lambda: it.run(fi.qn, [g, 150]), label)
+        if out is None:
+            continue
+        want = []
+        for c in dict.fromkeys(r[0] for r in rows):
+            want.append((c, 150, max(r[2] for r in rows if r[0] == c and r is [x for x in rows if x[0] == c][-1])))
+        d = out.data if isinstance(out, GA) else out
+        got = list(zip(d.cols["chromosome"].v, [int(T(x).cval()) for x in d.cols["start"].v], [int(T(x).cval()) for x in d.cols["end"].v])) if hasattr(d, "cols") and all(k in d.cols for k in ("chromosome", "start", "end")) else repr(out)[:80]
+        tb.cell(got == want, dict(targets=label, got=got, want=want))
+    tb.done("a chromosome's guessed extent ends at another chromosome's last target (per-chromosome values laid out in another order than the chromosome names)")
+
+
 def d5(chk, prog):
     chk.clause("D5", "contig selection: keep targeted or canonically named contigs")
     fi = prog.fn("cnvlib.antitarget.drop_noncanonical_contigs")
@@ -192,6 +214,7 @@ def run(chk):
               "merge()'s slow path (_merge_overlapping over the groups) is trusted beyond its grouping predicate")
     d1(chk, prog)
     d2(chk, prog)
+    d2b(chk, prog)
     chk.clause("D3", "the padded targets may overlap or nest: subtract()'s precondition is established (C06-D1 rule)")
     C06.d1(chk, prog)
     C06.d1b(chk, prog)          # the subtraction itself on literal tables (targets missing from a contig leave its accessible regions whole)
